@@ -101,7 +101,7 @@ func trimLeft(b []byte) []byte {
 func ethPacket(c *Chain, w *ethWorld, k uint64) packettypes.Packet {
 	return packettypes.Packet{
 		SrcChain: w.name, DstChain: c.name, Sequence: k, Sender: "0xethsender",
-		TransferData: []byte(fmt.Sprintf("eth-transfer-data-%d", k)), CallData: []byte{}, CallbackAddress: "", FeeOption: 0,
+		TransferData: []byte(fmt.Sprintf("eth-transfer-data-%d", k)), CallData: []byte{}, CallbackAddress: "", FeeOption: k % 3,
 	}
 }
 
@@ -226,6 +226,49 @@ func (w *ethWorld) proof(slotKey []byte) []byte {
 	return bz
 }
 
+// forgedProof: a proof whose ACCOUNT part is genuine (account proof against the real state root) but whose named
+// field is forged by the relayer:
+//
+//	forged_storage : storage_hash = root of a trie the relayer built, holding `value` under the slot of the message, and
+//	                 the (valid) storage proof from that trie — the counterparty never stored the value
+//	forged_nonce / forged_balance / forged_codehash : that account field altered, storage part genuine
+//	forged_account : the account proof comes from a state trie the relayer built (another state root)
+func (w *ethWorld) forgedProof(kind string, slotKey, value []byte) []byte {
+	var p ethclient.Proof
+	must(json.Unmarshal(w.proof(slotKey), &p))
+	switch kind {
+	case "forged_storage":
+		st := newMemTrie()
+		enc, err := rlp.EncodeToBytes(trimLeft(value))
+		must(err)
+		must(st.TryUpdate(crypto.Keccak256(slotKey), enc))
+		for i := 0; i < 5; i++ {
+			k := crypto.Keccak256([]byte(fmt.Sprintf("relayer-filler-%d", i)))
+			must(st.TryUpdate(crypto.Keccak256(k), enc))
+		}
+		p.StorageHash = st.Hash().Hex()
+		p.StorageProof = []*ethclient.StorageResult{{
+			Key: "0x" + common.Bytes2Hex(slotKey), Value: "0x" + common.Bytes2Hex(enc), Proof: proveNodes(st, crypto.Keccak256(slotKey)),
+		}}
+	case "forged_nonce":
+		p.Nonce = "0x" + new(big.Int).Add(w.acct.Nonce, big.NewInt(1)).Text(16)
+	case "forged_balance":
+		p.Balance = "0x" + new(big.Int).Add(w.acct.Balance, big.NewInt(5)).Text(16)
+	case "forged_codehash":
+		p.CodeHash = crypto.Keccak256Hash([]byte("other code")).Hex()
+	case "forged_account":
+		state := newMemTrie()
+		av, err := rlp.EncodeToBytes(&w.acct)
+		must(err)
+		must(state.TryUpdate(crypto.Keccak256(w.contract.Bytes()), av))
+		must(state.TryUpdate(crypto.Keccak256([]byte("relayer-account")), av))
+		p.AccountProof = proveNodes(state, crypto.Keccak256(w.contract.Bytes()))
+	}
+	bz, err := json.Marshal(&p)
+	must(err)
+	return bz
+}
+
 // ethLow: does the proof show — by trie.VerifyProof alone — that the world committed to by `root` stores `value`
 // under the slot the property names for (kind, src, dst, seq) in the storage of `contract`?
 func ethLow(root []byte, contract []byte, proof []byte, ack bool, src, dst string, seq uint64, value []byte) bool {
@@ -318,6 +361,16 @@ func (e *Env) opRecvEth(op Op) {
 	}
 	bz := e.orc.AddPack(&p)
 	proof := w.proof(slot)
+	if len(op.Variant) > 7 && op.Variant[:7] == "forged_" {
+		// a packet of the family that the counterparty NEVER committed (sequence ethDecoySeq+1) for the forged storage
+		// root; the genuine packet for the account-field forgeries
+		if op.Variant == "forged_storage" {
+			p = ethPacket(c, w, ethDecoySeq+1)
+			bz = e.orc.AddPack(&p)
+			slot = ethSlot(false, w.name, c.name, ethDecoySeq+1)
+		}
+		proof = w.forgedProof(op.Variant, slot, e.orc.AddSha(bz))
+	}
 	h := clienttypes.NewHeight(0, ethHeight)
 	switch op.Variant {
 	case "height+1":
@@ -375,8 +428,17 @@ func (e *Env) opAckEth(op Op) {
 	if op.Variant == "nodelay" {
 		h.RevisionHeight = ethRecent
 	}
+	proof := w.proof(slot)
+	if len(op.Variant) > 7 && op.Variant[:7] == "forged_" {
+		if op.Variant == "forged_storage" {
+			// an acknowledgement the counterparty never wrote, "proved" against a relayer-built storage trie
+			a := packettypes.NewAcknowledgement(1, []byte{}, "forged", e.accs[0].String(), p.FeeOption)
+			abz, _ = a.ABIPack()
+		}
+		proof = w.forgedProof(op.Variant, slot, e.orc.AddSha(abz))
+	}
 	e.prepare(c)
-	class := e.runAck(c, op.Relayer, append([]byte{}, ent.bz...), abz, w.proof(slot), h)
+	class := e.runAck(c, op.Relayer, append([]byte{}, ent.bz...), abz, proof, h)
 	e.stat(fmt.Sprintf("ack_%s.%s.seq%d.rel%d.class%d", w.name[:3], op.Variant, p.Sequence, op.Relayer, class))
 	e.finish(c, op.Commit)
 }
